@@ -250,7 +250,7 @@ fn main() {
         Spec {
             prop: "C15",
             rule: "E2: matching: every labelled undirected (multi)graph of each family on Graph x3, StableGraph compact/with vacancies, MatrixGraph compact/with removed id, GraphMap, Csr (maximality asserted) and on directed storage (validity only); flow: every capacitated directed multigraph of each family x every (s,t) on Graph x3 and StableGraph compact / with node and edge vacancies, capacities u8/u32/f64; non-trivial = maximum matching >= 1 / at least two edges".into(),
-            explanation: "matchings: mate symmetric, pairs joined by a non-loop edge, no node twice, len/edges/nodes/contains_*/is_perfect consistent, maximum_matching size = brute-force maximum over edge subsets; flows: capacity, conservation, value = net outflow of s = capacity of a minimum cut (brute force over all 2^(n-2) cuts)".into(),
+            explanation: "matchings: mate symmetric, pairs joined by a non-loop edge, no node twice, len/edges/nodes/contains_*/is_perfect consistent, maximum_matching size = the maximum cardinality computed by two independent oracles (edge-subset brute force up to 12 edges, vertex-subset dynamic programme); flows: capacity, conservation, value = net outflow of s = capacity of a minimum cut (brute force over all 2^(n-2) cuts)".into(),
             assumptions: vec!["graph sizes and capacity alphabets bounded as stated per family".into(), "oracles in harness/src/algs/opt.rs are trusted".into(), "on directed storage only validity of matchings is asserted (DESIGN.md note N3)".into()],
             min_outcomes: 5,
         },
